@@ -14,7 +14,8 @@
     [honours g E] is the getter's documented contract; [representable E] says that every edge
     time is one an int64 nanosecond count can express (between Go's zero time and year 3000). *)
 From Coq Require Import List NArith ZArith Bool Sorted.
-From ApiFu Require Import Base.Sexp TimeConn.TimeModel TimeConn.TimeSpec TimeConn.TimeProofs.
+From ApiFu Require Import Base.Sexp TimeConn.TimeModel TimeConn.TimeSpec TimeConn.TimeProofs
+  TimeConn.TimeErrModel TimeConn.TimeErrProofs.
 Import ListNotations.
 Open Scope Z_scope.
 
@@ -146,6 +147,107 @@ Theorem C16_tiebreak_by_id_needed :
     fst (conn current g all_sync true a) = OPage es info /\ es <> TimeRef E a.
 Proof. exact tiebreak_by_id_needed. Qed.
 
+(** ** Stage B: failing getter calls, totalCount, mixed hand-overs, the order of resolution
+
+    [xconn V F g ps s tc a] (TimeConn/TimeErrModel.v) transcribes the same Go code with the
+    getter's error result, [join]'s error path and [totalCount] included.  [ps i] now also says
+    whether the i-th getter call fails ([Err id]), and whether it hands the failure over
+    synchronously or through its promise; [s] says which of pageInfo / totalCount the request
+    selects, [tc] is what the application's ResolveTotalCount answers.  The result is the outcome
+    (argument error / field null with an error / crash / page with page info and total count), the
+    range queries actually issued, and the number of ResolveTotalCount calls.  [F = true]: the
+    fourth repair (typed nil error values) is present.  [hand ps i = xp (ps i)] forgets the errors,
+    [with_total] adds totalCount to an outcome of the error-free transcription [conn]. *)
+
+(** As long as no issued call fails, the connection with errors and totalCount IS the error-free
+    transcription (so every theorem above carries over to it, for every mixture of synchronous and
+    promised results), with totalCount = the application's answer. *)
+Theorem C16_time_no_failure_is_conn : forall V g ps s tc a,
+  winner ps (range_queries V (cur_of (a_after a)) (cur_of (a_before a)) (a_from a) (a_to a) (limit_of a)) = None ->
+  xconn V true g ps s tc a = with_total s tc (conn V g (hand ps) (want_info s) a).
+Proof. exact xconn_no_failure. Qed.
+
+(** An error from any issued range query fails the field with THAT error — never a partial page,
+    whatever the other queries returned, synchronously or through promises: the field is null with
+    the error [winner] names and only the queries up to a synchronous failure were issued.  (In the
+    lazy first/last = 0 path a failing totalCount may be reported beside it.) *)
+Theorem C16_time_getter_error_fails_field : forall V g ps s tc a id n,
+  arg_error a = false -> fetches s a = true ->
+  winner ps (range_queries V (cur_of (a_after a)) (cur_of (a_before a)) (a_from a) (a_to a) (limit_of a)) = Some (id, n) ->
+  exists more tcn,
+    xconn V true g ps s tc a
+    = (XFieldError (EGetter id :: more),
+       firstn n (range_queries V (cur_of (a_after a)) (cur_of (a_before a)) (a_from a) (a_to a) (limit_of a)), tcn)
+    /\ more = (if lazy_of a then total_err_of s tc else [])
+    /\ (lazy_of a = false -> tcn = Some O).
+Proof. exact xconn_failure. Qed.
+
+(** Which error wins when several calls fail: an error some ISSUED call really raised; the first
+    synchronous failure in issue order if there is one (nothing is issued after it; it beats a
+    failing promise obtained earlier), otherwise the first failing promise in issue order. *)
+Theorem C16_time_winner_sound : forall ps qs id n,
+  winner ps qs = Some (id, n) ->
+  (n <= length qs)%nat /\
+  exists k, (k < n)%nat /\ call_fails (ps k) = Some id /\
+    ((by_promise (xp (ps k)) = false /\ n = S k /\ forall j, (j < k)%nat -> fails_sync (ps j) = None)
+     \/ (by_promise (xp (ps k)) = true /\ n = length qs
+         /\ (forall j, (j < n)%nat -> fails_sync (ps j) = None)
+         /\ forall j, (j < k)%nat -> fails_promise (ps j) = None)).
+Proof. exact winner_sound. Qed.
+
+(** ... and some error wins as soon as one of the calls fails. *)
+Theorem C16_time_winner_complete : forall ps qs,
+  winner ps qs = None -> forall j, (j < length qs)%nat -> call_fails (ps j) = None.
+Proof. exact winner_complete. Qed.
+
+(** No partial page: a page is returned only if none of the issued calls failed. *)
+Theorem C16_time_page_means_no_failure : forall g ps s tc a es info total issued tcn,
+  xconn current true g ps s tc a = (XPage es info total, issued, tcn) ->
+  forall j, (j < length issued)%nat -> call_fails (ps j) = None.
+Proof. exact xconn_page_no_failure. Qed.
+
+(** The full result with totalCount: for every honouring getter whose calls do not fail, however
+    each call hands its result over (any mixture of synchronous slices, promises, nil, typed nil
+    error values), the page is the reference page, totalCount is the application's answer obtained
+    by exactly one ResolveTotalCount call iff it is selected; a failing ResolveTotalCount nulls
+    the field with its error. *)
+Theorem C16_time_result_with_total : forall E g ps s tc a,
+  honours g E -> NoDup E -> representable E -> args_ok a = true ->
+  (forall j, call_fails (ps j) = None) ->
+  match total_err_of s tc with
+  | [] => exists info, fst (fst (xconn current true g ps s tc a)) = XPage (TimeRef E a) info (total_of s tc)
+                       /\ snd (xconn current true g ps s tc a) = Some (tc_calls_of s)
+  | errs => fst (fst (xconn current true g ps s tc a)) = XFieldError errs
+  end.
+Proof. exact xconn_result. Qed.
+
+(** The winner does not depend on the order in which the promises resolve: [join] reads the
+    promises in issue order; whatever the order of arrival [sched] (any list mentioning every
+    promise), it ends with the error of the first failing promise in issue order, or with all
+    values in issue order. *)
+Theorem C16_time_join_schedule_independent : forall prs sched,
+  (forall k, (k < length prs)%nat -> In k sched) ->
+  join_sched prs sched =
+  match first_perr prs with Some id => JErr id | None => JDone (pvals prs) end.
+Proof. exact join_schedule_independent. Qed.
+
+(** ... and the failure is reported as soon as the promises up to the failing one have resolved. *)
+Theorem C16_time_join_error_needs_only_prefix : forall prs sched k id,
+  nth_error prs k = Some (PErr id) -> first_perr (firstn k prs) = None ->
+  (forall j, (j <= k)%nat -> In j sched) ->
+  join_sched prs sched = JErr id.
+Proof. exact join_error_needs_only_prefix. Qed.
+
+(** The fourth repaired defect: a getter returning a typed nil error value synchronously failed
+    the field with a made-up error, while the same answer through a promise gave the page. *)
+Theorem C16_typed_nil_error_refuted_before_fix :
+  exists E g a,
+    honours g E /\ NoDup E /\ representable E /\ args_ok a = true /\
+    fst (fst (xconn current false g typed_nil_sync s_info (TCVal 0) a)) = XFieldError [EBogus] /\
+    (exists info, fst (fst (xconn current false g typed_nil_promise s_info (TCVal 0) a)) = XPage (TimeRef E a) (Some info) None) /\
+    (exists info, fst (fst (xconn current true g typed_nil_sync s_info (TCVal 0) a)) = XPage (TimeRef E a) (Some info) None).
+Proof. exact typed_nil_error_refuted_before_fix. Qed.
+
 Print Assumptions C16_cursor_order_strict_total.
 Print Assumptions C16_reference_characterised.
 Print Assumptions C16_sorted_list_unique.
@@ -161,3 +263,12 @@ Print Assumptions C16_filters_refuted_before_fix.
 Print Assumptions C16_result_refuted_before_wrap_fix.
 Print Assumptions C16_panic_before_fix.
 Print Assumptions C16_tiebreak_by_id_needed.
+Print Assumptions C16_time_no_failure_is_conn.
+Print Assumptions C16_time_getter_error_fails_field.
+Print Assumptions C16_time_winner_sound.
+Print Assumptions C16_time_winner_complete.
+Print Assumptions C16_time_page_means_no_failure.
+Print Assumptions C16_time_result_with_total.
+Print Assumptions C16_time_join_schedule_independent.
+Print Assumptions C16_time_join_error_needs_only_prefix.
+Print Assumptions C16_typed_nil_error_refuted_before_fix.
